@@ -1,4 +1,5 @@
 import PysnarkModel.Lemmas.Values
+import PysnarkModel.Gen.Api
 import PysnarkModel.Lemmas.ValuesDispatch
 import PysnarkModel.Spec.R1CS
 import PysnarkModel.Lemmas.PyDomain
@@ -441,5 +442,14 @@ example :
     pyFirstExcl [.lit (.int 2), .lit (.int 3), .mk .priv 0, .mk .priv 1, .bin .pow 2 3] 0 [] []
       (St.init 97 8 8) = none := by
   refine ⟨?_, ?_⟩ <;> first | decide +kernel | fail "exclusion table changed"
+
+
+/-- **API surface pinned** (regenerated from the source on every run, `Gen/Api.lean`): the methods the model of this
+property transcribes are exactly the methods the code has.  A method added to the code (say an in-place `__iadd__`, which
+Python would prefer over the `__add__` the model knows) or removed from it changes the generated list and this obligation
+fails: the tie is then broken by construction and the check runs its extended search. -/
+theorem C05_api_surface :
+    Gen.api_LinComb = ["__init__", "val", "__repr__", "__deepcopy__", "__lt__", "assert_lt", "__le__", "assert_le", "__eq__", "assert_eq", "__ne__", "assert_ne", "__gt__", "assert_gt", "__ge__", "assert_ge", "__bool__", "__add__", "__sub__", "__mul__", "__truediv__", "__floordiv__", "__mod__", "__divmod__", "__pow__", "__lshift__", "__rshift__", "__and__", "__xor__", "__or__", "__rsub__", "__rtruediv__", "__rfloordiv__", "__rmod__", "__rdivmod__", "__rpow__", "__rlshift__", "__rrshift__", "__neg__", "__pos__", "__abs__", "__invert__", "__complex__", "__int__", "__float__", "__matmul__", "__rmatmul__", "__round__", "__trunc__", "__floor__", "__ceil__", "to_bits", "from_bits", "check_positive", "assert_positive", "check_zero", "check_nonzero", "assert_zero", "assert_nonzero", "assert_range", "_ensurelc", "if_else"] ∧
+    Gen.api_LinCombBool = ["__init__", "val", "__repr__", "is_boolean_value", "parse_boolean", "_ensurebool", "__add__", "__sub__", "__mul__", "__truediv__", "__floordiv__", "__mod__", "__divmod__", "__rsub__", "__rtruediv__", "__neg__", "__invert__", "__and__", "__xor__", "__or__", "__eq__", "__ne__", "__lt__", "__le__", "__gt__", "__ge__", "assert_eq", "assert_ne", "assert_lt", "assert_le", "assert_gt", "assert_ge", "__bool__", "__pow__", "__lshift__", "__rshift__", "__pos__", "__abs__", "__int__", "check_positive", "assert_positive", "check_zero", "assert_zero", "assert_nonzero", "if_else"] := ⟨rfl, rfl⟩
 
 end Pysnark
